@@ -286,6 +286,11 @@ class CatalogReplayer:
                     return [np.array([float(q2f(q)) for q in gr], dtype=np.float64).reshape(tuple(s))
                             for gr, s in zip(ent["grads"], case["shapes"])]
             raise KeyError("gradient not found")
+        if kind == "ext":
+            for ent in case["gs"]:
+                if ent["g"] == gq and ent.get("grads"):
+                    return [np.array([float(q2f(q)) for q in ent["grads"][0]], dtype=np.float64).reshape(tuple(case["shapes"][0]))]
+            return None
         if kind == "rterm":
             f = rfun(case["fn"], case["par"])
             xs = [mp.mpf(q[0]) / q[1] for q in case["X"][0]]
@@ -341,8 +346,16 @@ class CatalogReplayer:
                             continue
                         if gr.data.dtype != t.data.dtype:
                             div.append(("grad_dtype", "%s:grad-dtype:%s:g=%s" % (op, dn, "same" if gdt == dtype else "other"), "operand %d of %s (%s, upstream %s): .grad dtype %s" % (k, op, dn, gdt, gr.data.dtype)))
-                        if want is not None:
-                            tol = RTOL[dtype]
+                        # an upstream gradient of the other dtype limits the accuracy to single precision
+                        rt = max(RTOL[dtype], RTOL[np.dtype(gdt)])
+                        if want is not None and hasattr(want[k], "contains"):
+                            # sub-gradient box (kink of a piecewise-linear activation)
+                            tol = rt * max(1.0, float(np.max(np.abs(want[k].hi))))
+                            if not want[k].contains(gr.data.astype(np.float64), tol):
+                                div.append(("grad_value", "%s:subgrad:%s" % (op, ac), "%s%s on %s (%s): operand %d .grad %s outside the sub-gradient set [%s, %s]" % (
+                                    op, case["a"], case["shapes"], dn, k, gr.data.tolist(), want[k].lo.tolist(), want[k].hi.tolist())))
+                        elif want is not None:
+                            tol = rt
                             scale = max(1.0, float(np.max(np.abs(want[k]))) if want[k].size else 1.0)
                             if not np.allclose(gr.data.astype(np.float64), want[k], rtol=tol, atol=tol * scale):
                                 div.append(("grad_value", "%s:grad:%s" % (op, ac), "%s%s on %s (%s) upstream %s: operand %d .grad %s, specification %s" % (
@@ -354,19 +367,26 @@ class CatalogReplayer:
 
     @staticmethod
     def check_subgradient(case, gq, grad):
-        """max/min: on every group the gradient is a convex combination over the tie set"""
+        """max/min/max-pool with ties: each group distributes its upstream gradient as a convex combination over
+        its tie set.  Groups may overlap (pooling windows), so the necessary conditions checked are: nothing outside
+        the tie sets, the total is preserved, and - when a single group carries the gradient - the per-group condition."""
         g = [float(q2f(q)) for q in gq]
-        seen = np.zeros(grad.shape[0], dtype=bool)
-        for j, ties in enumerate(case["ties"]):
-            idx = [i - 1 for i in ties]
-            part = grad[idx]
-            seen[idx] = True
-            if abs(part.sum() - g[j]) > 1e-5 * max(1, abs(g[j])):
-                return "group %d: gradient over the tie set sums to %s, upstream %s" % (j, part.sum(), g[j])
-            if g[j] != 0 and np.any(part / g[j] < -1e-6):
-                return "group %d: negative weight on a tie" % j
-            if g[j] == 0 and np.any(np.abs(part) > 1e-6):
-                return "group %d: non-zero gradient with zero upstream" % j
-        if np.any(np.abs(grad[~seen]) > 1e-6):
+        allowed = np.zeros(grad.shape[0], dtype=bool)
+        for ties in case["ties"]:
+            allowed[[i - 1 for i in ties]] = True
+        if np.any(np.abs(grad[~allowed]) > 1e-6):
             return "gradient outside the arg-extremum positions: %s" % grad.tolist()
+        if abs(grad.sum() - sum(g)) > 1e-5 * max(1.0, sum(abs(x) for x in g)):
+            return "gradient sums to %s, upstream gradient sums to %s" % (grad.sum(), sum(g))
+        nz = [j for j, v in enumerate(g) if v != 0]
+        if len(nz) == 1:
+            j = nz[0]
+            idx = [i - 1 for i in case["ties"][j]]
+            part = grad[idx]
+            if np.any(part / g[j] < -1e-6) or abs(part.sum() - g[j]) > 1e-5 * max(1, abs(g[j])):
+                return "group %d: not a convex combination over its tie set: %s" % (j, part.tolist())
+            rest = np.ones(grad.shape[0], dtype=bool)
+            rest[idx] = False
+            if np.any(np.abs(grad[rest]) > 1e-6):
+                return "gradient outside the tie set of the only active group"
         return None
